@@ -607,6 +607,8 @@ def run(ck, ctx):
             inner_call = val.args[0] if val.op == "MCall" and val.attr[0] == "items" and len(val.args) == 1 else None
             gcall = inner_call.args[1] if inner_call is not None and is_ext_call(inner_call, "builtins.dict") and \
                 len(inner_call.args) == 2 else None
+            if gcall is None and (val.extra or {}).get("generator") is fl:
+                gcall = val         # yield from _flat(v, key, sep): the nested generator itself, item by item
             okr = gcall is not None and (gcall.extra or {}).get("generator") is fl and len(gcall.args) == 4 and \
                 gcall.args[1] is key_v and joined_key(gcall.args[2], pk, sep, it) is not None and gcall.args[3] is sep
             ck.ob("R16.1", "flattener: recursion passes the value, the joined key as the new parent, and the same "
